@@ -23,6 +23,25 @@ def step (s : St) (ws : List String) : St × String :=
         let (g, i) := regN n s.ga
         ({ ga := g, tab := (k, i, n, false) :: s.tab.filter (·.1 ≠ k) }, observe g (some i))
       | _, _ => (s, "bad-op")
+    else if c = "avx" then
+      -- a block whose data allocation fails: nothing is registered
+      match k.toNat?, n.toNat? with
+      | some _, some n => if n < 1 then (s, "bad-op") else (s, observe s.ga none)
+      | _, _ => (s, "bad-op")
+    else if c = "rs" ∨ c = "rsx" then
+      -- resize of a block: the old block is released first; `rsx`: the new allocation fails, nothing is registered
+      match k.toNat?, n.toNat? with
+      | some k, some n =>
+        if n < 1 then (s, "bad-op") else
+        match s.tab.find? (·.1 = k) with
+        | some (_, i, n0, false) =>
+          let g := unregN i n0 s.ga
+          if c = "rs" then
+            let (g, i') := regN n g
+            ({ ga := g, tab := (k, i', n, false) :: s.tab.filter (·.1 ≠ k) }, observe g (some i'))
+          else ({ ga := g, tab := s.tab.filter (·.1 ≠ k) }, observe g none)
+        | _ => (s, "bad-op")
+      | _, _ => (s, "bad-op")
     else (s, "bad-op")
   | ["d", k] => match k.toNat? with
     | some k => match s.tab.find? (·.1 = k) with
